@@ -380,10 +380,69 @@ def dangling_cases(ctx, program, dictionaries):
             ctx.nontrivial(spec_hash(["dangling", program, o]))
 
 
+def failed_then_same_object(ctx, r, case):
+    """A long-lived cached node whose body raises for some VALUES (a failure after the cache miss, not a missing key):
+    the caller keeps ONE dictionary object, edits it in place between calls and mixes in fresh equal dictionaries.
+    Every outcome must be what the value dictates at that moment - a failed evaluation leaves nothing behind (no stored
+    value, no half-done bookkeeping in the backend) that changes a later outcome."""
+    from labrea import Option, dataset
+    from labrea.cache import MemoryCache, cached
+
+    bad = set(r.sample(range(5), r.choice([1, 2, 3])))
+    runs = []
+
+    def body(x, y="-"):
+        runs.append(x)
+        if x in bad:
+            raise ValueError(f"bad {x}")
+        return ["v", x, y]
+
+    shape = r.choice(["cached-apply", "cached-dataset", "dataset", "cached-over-cached"])
+    if shape == "cached-apply":
+        node = cached(Option("X") >> body, MemoryCache())
+    elif shape == "cached-over-cached":
+        node = cached(cached(Option("X") >> body, MemoryCache()), MemoryCache())
+    else:
+        ds = dataset(lambda x=Option("X"), y=Option("Y", "-"): body(x, y))
+        node = ds if shape == "dataset" else cached(ds, MemoryCache())
+    A = {"X": r.randrange(5)}
+    trail = []
+    for step in range(r.choice([4, 6, 9])):
+        k = r.random()
+        if k < 0.5:
+            A["X"] = r.randrange(5)
+            o, label = A, "same-object edit X"
+        elif k < 0.65:
+            A["Z"] = step
+            o, label = A, "same-object edit of a key nobody reads"
+        elif k < 0.8:
+            o, label = A, "same-object again"
+        else:
+            o, label = {"X": r.randrange(5)}, "fresh"
+        x = o["X"]
+        y = o.get("Y", "-")
+        exp = ("err", "ValueError") if x in bad else ("ok", canon(["v", x, y]))
+        trail.append([label, copy.deepcopy(o)])
+        try:
+            got = ("ok", canon(node.evaluate(o)))
+        except EvaluationError as e:
+            got = ("err", type(chain(e)[-1]).__name__)
+        except Exception as e:  # noqa: BLE001
+            got = ("err-raw", type(e).__name__)
+        ctx.evaluations += 1
+        ctx.count("failed_then_same_object_steps")
+        if got != exp:
+            ctx.violation("failure-left-state-behind", f"{shape}, values {sorted(bad)} raise; step {step} ({label}) under {o}: {short(got)} but the value dictates {short(exp)}",
+                          {"family": "failed-then-same-object", "case": case, "shard": ctx.shard, "shards": ctx.shards, "trail": trail[-4:]})
+            return
+    ctx.nontrivial(spec_hash(["failed-then-same-object", case, shape, sorted(bad)]))
+
+
 def run(ctx):
     rng = ctx.rng
     for i in range(ctx.n(400, 8000)):
         dangling_family(ctx, case_rng(ctx, 5_000_000 + i))
+        failed_then_same_object(ctx, case_rng(ctx, ("ftso", i)), i)
     dicts = [{}, {"A": 1}, {"A": 1, "B": "b", "D": "x"}, {"A": 2, "B": "b", "D": "y", "S": {"X": 1, "Y": 2}, "L": [1, 2]}, {"A": 1}, {"D": "x", "C": 3, "E": "y"},
              {"A": 1, "B": "b", "D": "x"}]
     for i, p in enumerate(directed.programs()):
@@ -506,6 +565,10 @@ def known_finding_reproducer(ctx):
 
 
 def replay(ctx, rep):
+    if rep["witness"].get("family") == "failed-then-same-object":
+        w = rep["witness"]
+        ctx.shard, ctx.shards = w.get("shard", 0), w.get("shards", 1)
+        return failed_then_same_object(ctx, case_rng(ctx, ("ftso", w["case"])), w["case"])
     w = rep["witness"]
     if w.get("family") == "user-subclass-failures":
         user_subclass_failures(ctx)
